@@ -90,6 +90,7 @@ def fibre(
     nmatch=0,
     match_reverse=None,
     front_only=False,
+    ta_on_ref=False,
 ):
     x = make_x(rng, nx, span, irregular)
     nx = x.size
@@ -150,8 +151,8 @@ def fibre(
         tas = [float(x[a_last]) if on else float((x[j] + x[a_last]) / 2)] if nta else []
         nta = 0
     for k in range(nta):
-        on = bool(rng.random() < 0.5) if ta_on_grid is None else ta_on_grid
-        cands = [j for j in range(2, nx - 2) if (ref_ix < j).sum() >= 2 and (ref_ix > j + (0 if on else 0)).sum() >= 2
+        on = True if ta_on_ref else (bool(rng.random() < 0.5) if ta_on_grid is None else ta_on_grid)
+        cands = [j for j in range(2, nx - 2) if (not ta_on_ref or j in set(ref_ix.tolist())) and (ref_ix < j).sum() >= 2 and (ref_ix > j + (0 if on else 0)).sum() >= 2
                  and all(abs(x[j] - q) > 1e-9 and abs((x[j] + x[j + 1]) / 2 - q) > 1e-9 for q in tas)]
         # every segment between consecutive splices must also keep two reference locations
         cands = [j for j in cands if all(((ref_ix > min(j, np.searchsorted(x, q))) & (ref_ix < max(j, np.searchsorted(x, q)))).sum() >= 2 for q in tas)]
